@@ -1,0 +1,119 @@
+//! Verification hooks (cargo feature `verif`, off by default).
+//!
+//! Nothing in here changes behaviour unless a [`Controller`] has been installed
+//! on the thread that calls [`crate::Txtpp::run`]. With a controller installed,
+//! the harness is told about every task queued on the thread pool, may delay
+//! the start of a task, is told when a task has sent its result (or died), and
+//! is consulted whenever the coordinator finds its channel empty while work is
+//! still outstanding.
+use std::cell::RefCell;
+use std::sync::atomic::{AtomicU64, Ordering};
+use std::sync::Arc;
+
+pub use crate::core::{Directive, DirectiveType, TagState};
+
+/// What a queued task does
+#[derive(Debug, Clone, Copy, PartialEq, Eq, Hash)]
+pub enum TaskKind {
+    Scan,
+    FirstPass,
+    SecondPass,
+}
+
+/// Answer of [`Controller::idle`]
+#[derive(Debug, Clone, Copy, PartialEq, Eq)]
+pub enum Idle {
+    /// do what the unhooked code does (sleep, then poll again)
+    Sleep,
+    /// poll again at once
+    Continue,
+    /// give up: leave the loop (the run returns an error / the drop loop ends)
+    Abort,
+}
+
+pub trait Controller: Send + Sync {
+    /// coordinator thread: a task was queued on the pool
+    fn spawned(&self, id: u64, path: &str, kind: TaskKind);
+    /// worker thread: the task is about to start (may block)
+    fn begin(&self, id: u64);
+    /// worker thread: the task has sent its result, or is unwinding from a panic
+    fn end(&self, id: u64, panicking: bool);
+    /// coordinator thread: the channel is empty and work is outstanding (may block)
+    fn idle(&self, in_drop: bool) -> Idle;
+    /// coordinator thread: the main loop has returned
+    fn finished(&self, ok: bool);
+}
+
+thread_local! {
+    static CONTROLLER: RefCell<Option<Arc<dyn Controller>>> = const { RefCell::new(None) };
+}
+
+static NEXT_ID: AtomicU64 = AtomicU64::new(1);
+
+/// Install a controller for runs started from the calling thread
+pub fn install(c: Arc<dyn Controller>) {
+    CONTROLLER.with(|slot| *slot.borrow_mut() = Some(c));
+}
+
+/// Remove the controller of the calling thread
+pub fn uninstall() {
+    CONTROLLER.with(|slot| *slot.borrow_mut() = None);
+}
+
+fn current() -> Option<Arc<dyn Controller>> {
+    CONTROLLER.with(|slot| slot.borrow().clone())
+}
+
+pub(crate) fn idle(in_drop: bool) -> Idle {
+    match current() {
+        Some(c) => c.idle(in_drop),
+        None => Idle::Sleep,
+    }
+}
+
+pub(crate) fn finished(ok: bool) {
+    if let Some(c) = current() {
+        c.finished(ok);
+    }
+}
+
+/// Created on the coordinator thread, moved into the worker closure
+pub(crate) struct TaskToken {
+    ctl: Option<Arc<dyn Controller>>,
+    id: u64,
+}
+
+impl TaskToken {
+    pub(crate) fn new(path: &std::path::Path, kind: TaskKind) -> Self {
+        let ctl = current();
+        let id = NEXT_ID.fetch_add(1, Ordering::Relaxed);
+        if let Some(c) = &ctl {
+            c.spawned(id, &path.display().to_string(), kind);
+        }
+        Self { ctl, id }
+    }
+
+    pub(crate) fn begin(self) -> TaskGuard {
+        if let Some(c) = &self.ctl {
+            c.begin(self.id);
+        }
+        TaskGuard {
+            ctl: self.ctl,
+            id: self.id,
+        }
+    }
+}
+
+/// Dropped last in the worker closure: after the result was sent, or while unwinding
+pub(crate) struct TaskGuard {
+    ctl: Option<Arc<dyn Controller>>,
+    id: u64,
+}
+
+impl Drop for TaskGuard {
+    fn drop(&mut self) {
+        if let Some(c) = &self.ctl {
+            c.end(self.id, std::thread::panicking());
+        }
+    }
+}
